@@ -1,5 +1,6 @@
 """C13 — static and runtime views of declarations agree (kind E, three routes)."""
 import ast
+import collections
 import itertools
 import re
 import sys
@@ -8,7 +9,7 @@ import types
 from mc.core import UnitResult
 
 ID = "C13"
-PARTS = ['future', 'header', 'method-first-param', 'quoted', 'runtime']      # outcome classes every run must produce (guards against a part of the exploration silently not running)
+PARTS = ['future', 'header', 'method-first-param', 'quoted', 'runtime', 'hheader']      # outcome classes every run must produce (guards against a part of the exploration silently not running)
 RULE = ("state A = annotation expression (every form of the typing vocabulary up to the depth bound) read through four routes: source annotation of a checked def, quoted string, "
         "`from __future__ import annotations`, and type_from_runtime(eval(E)); state B = def header (all parameter kinds/defaults, annotated from 4 terms incl. a class that shadows "
         "a builtin; plain, async, generator, async with nested generator) built from the def node (nested def) and from the runtime function object (module-level def, with and "
@@ -135,7 +136,7 @@ def bounds(tier):
 def units(tier):
     na = len(annotations(tier))
     nh = len(headers(tier))
-    return [("ann", tier, i, min(na, i + 60)) for i in range(0, na, 60)] + [("hdr", tier, i, min(nh, i + 25)) for i in range(0, nh, 25)]
+    return [("ann", tier, i, min(na, i + 60)) for i in range(0, na, 60)] + [("hdr", tier, i, min(nh, i + 25)) for i in range(0, nh, 25)] + [("hhdr", tier, i, i + HH_STEP) for i in range(0, 920, HH_STEP)]
 
 
 def _norm(s):
@@ -344,9 +345,107 @@ def _sigeq(a, b):
     return canon(a) == canon(b)
 
 
+# ---- the def headers of pyanalyze's own test programs (ref/harvest.py): every undecorated module-level function of every program ---------------
+HH_STEP = 40
+
+
+def _hprogs():
+    from props.c10_harvest import hcorpus
+    return hcorpus()
+
+
+def _harv_hdr(res, tier, lo, hi, only=None):
+    """For every undecorated module-level `def f(...)` of a harvested program: a copy of the def is placed inside a new function (def-node route: no function
+    object exists for it) followed by reveal_type(copy); the signature pyanalyze builds from that def node must equal the one it builds from the function
+    object of the original (runtime route)."""
+    import copy
+    from pa.run import check, cleanup_module, get_checker, test_module_factory
+    ck = get_checker()
+    H = _hprogs()
+    for pi in range(lo, min(hi, len(H))):
+        name, src, settings = H[pi]
+        if only is not None and name != only[0]:
+            continue
+        try:
+            tree = ast.parse(src)
+        except SyntaxError:
+            continue
+        if "TYPE_CHECKING" in src:
+            res.outcomes["hheader:type-checking-only-names"] += 1
+            continue        # names imported under `if TYPE_CHECKING:` do not exist at run time: the two views cannot agree by construction
+        counts = collections.Counter(n.name for n in ast.walk(tree) if isinstance(n, (ast.FunctionDef, ast.AsyncFunctionDef)))
+        # a name defined more than once is an @overload / @evaluated family: the runtime route looks the family up by name, the last def alone is not it
+        defs = [n for n in tree.body if isinstance(n, ast.FunctionDef) and not n.decorator_list and counts[n.name] == 1]
+        if not defs:
+            res.outcomes["hheader:no-plain-def"] += 1
+            continue
+        body = []
+        for n in defs:
+            c = copy.deepcopy(n)
+            c.name = "verif_copy_of_" + n.name
+            c.body = [ast.Pass()]
+            body.append(c)
+            body.append(ast.Expr(ast.Call(ast.Name("reveal_type", ast.Load()), [ast.Name(c.name, ast.Load())], [])))
+        outer = ast.FunctionDef(name="verif_outer", args=ast.arguments(posonlyargs=[], args=[], kwonlyargs=[], kw_defaults=[], defaults=[]), body=body, decorator_list=[], type_params=[])
+        code = src.rstrip("\n") + "\n\n\n" + ast.unparse(ast.fix_missing_locations(ast.Module([outer], []))) + "\n"
+        try:
+            fails, t2, mod = check(code, checker=ck, want_module=True, module_factory=test_module_factory())
+        except Exception as e:
+            res.outcomes["hheader:unloadable"] += 1
+            continue
+        res.transitions += 1
+        try:
+            rev = {}
+            for fl in fails:
+                if fl["code"].name == "reveal_type":
+                    rev[fl["lineno"]] = fl["description"]
+            lines = code.split("\n")
+            for n in defs:
+                if only is not None and n.name != only[1]:
+                    continue
+                res.states += 1
+                ln = next((k + 1 for k, l in enumerate(lines) if l.strip() == "reveal_type(verif_copy_of_%s)" % n.name), None)
+                m = re.search(r"Revealed type is '(.*)'", rev.get(ln, ""), re.S)
+                if not m:
+                    res.outcomes["hheader:not-revealed"] += 1
+                    continue
+                ast_sig = _norm(m.group(1))
+                fobj = getattr(mod, n.name, None)
+                if not isinstance(fobj, types.FunctionType):
+                    res.outcomes["hheader:rebound"] += 1
+                    continue
+                case = {"mode": "hhdr", "name": name, "def": n.name, "order": 10 ** 7 + pi * 100}
+                try:
+                    sig = ck.arg_spec_cache.get_argspec(fobj)
+                except Exception as e:
+                    res.violation({"kind": "runtime-route-raises", "exc": type(e).__name__, "defkind": "harvested"}, case, "get_argspec raised %r for %s of %s" % (e, n.name, name))
+                    continue
+                rt_sig = _norm(sig) if sig is not None else "None"
+                res.validated += 1
+                strip = lambda t: re.sub(r" \(Protocol with members [^()]*\)", "", t)      # printed only once the type object has been resolved: representation
+                ast_sig, rt_sig = strip(ast_sig), strip(rt_sig)
+                a2 = re.sub(r"\bverif_copy_of_\w+", "F", ast_sig)
+                a2 = re.sub(r"\bverif_outer\.<locals>\.", "", a2)
+                r2 = re.sub(r"(^|[ .'])%s(?=$| \(|')" % re.escape(n.name), r"\1F", rt_sig)
+                same = _sigeq(a2, r2)
+                res.outcomes["hheader:%s" % ("same" if same else "differs")] += 1
+                if not same:
+                    hdr = ast.unparse(n.args)
+                    feats = "+".join(f for f, t in (("posonly", bool(n.args.posonlyargs)), ("vararg", bool(n.args.vararg)), ("kwonly", bool(n.args.kwonlyargs)), ("kwarg", bool(n.args.kwarg)),
+                                                    ("default", bool(n.args.defaults or any(n.args.kw_defaults))), ("returns", n.returns is not None), ("string-ann", "'" in hdr or '"' in hdr)) if t)
+                    res.violation({"kind": "signature-routes-differ", "defkind": "harvested", "features": feats, "program": name}, case,
+                                  "def %s(%s)%s of test-suite program %s: def-node route gives %s, runtime route gives %s" % (n.name, hdr, (" -> " + ast.unparse(n.returns)) if n.returns else "", name, a2, r2))
+        finally:
+            cleanup_module(mod)
+    res.sample({"harvested_headers_range": [lo, hi]})
+
+
 def run_unit(unit):
     kind, tier, lo, hi = unit
     res = UnitResult()
+    if kind == "hhdr":
+        _harv_hdr(res, tier, lo, hi)
+        return res
     if kind == "ann":
         _ann(res, tier, lo, hi)
     else:
@@ -356,6 +455,11 @@ def run_unit(unit):
 
 def replay(case):
     res = UnitResult()
+    if case["mode"] == "hhdr":
+        names = [n for n, _, _ in _hprogs()]
+        i = names.index(case["name"])
+        _harv_hdr(res, "quick", i, i + 1, only=(case["name"], case["def"]))
+        return list(res.viol.values())
     for tier in ("quick", "thorough"):
         if case["mode"] == "ann":
             anns = annotations(tier)
